@@ -188,6 +188,10 @@ func inputsFor(re *syntax.Regexp, rng *rand.Rand) [][]byte {
 		add("a\n" + l + "\nb")
 		add(strings.ToUpper(l))
 		add(strings.ToLower(l))
+		for _, v := range foldVariants(l) {
+			add(v)
+			add("x" + v + "y")
+		}
 		add("\xff" + l)
 		add(l + "\xff")
 		add("\xc3" + l)
@@ -208,6 +212,66 @@ func inputsFor(re *syntax.Regexp, rng *rand.Rand) [][]byte {
 			sb.WriteString(frags[rng.Intn(len(frags))])
 		}
 		add(sb.String())
+	}
+	return out
+}
+
+// foldVariants: the literal with one rune, and with every rune, replaced by the other members of its unicode.SimpleFold
+// orbit -- what a case-insensitive regexp accepts besides the literal itself (not only letters have such variants)
+func foldVariants(l string) []string {
+	rs := []rune(l)
+	var out []string
+	all := append([]rune{}, rs...)
+	for i, r := range rs {
+		for r1 := unicode.SimpleFold(r); r1 != r; r1 = unicode.SimpleFold(r1) {
+			v := append([]rune{}, rs...)
+			v[i] = r1
+			out = append(out, string(v))
+		}
+		all[i] = unicode.SimpleFold(r)
+	}
+	if len(rs) > 1 {
+		out = append(out, string(all))
+	}
+	return out
+}
+
+// foldingRunes: every rune that has a case variant, split into letters and non-letters (Roman numerals, circled letters,
+// combining ypogegrammeni, ...); a seeded sample of both classes is put under (?i) in every fast-path shape
+func foldingRunes() (letters, others []rune) {
+	for r := rune(0); r <= unicode.MaxRune; r++ {
+		if unicode.SimpleFold(r) == r {
+			continue
+		}
+		if unicode.IsLetter(r) {
+			letters = append(letters, r)
+		} else {
+			others = append(others, r)
+		}
+	}
+	return
+}
+
+func foldPatterns(rng *rand.Rand, perClass int) []string {
+	letters, others := foldingRunes()
+	pick := func(rs []rune, fixed []rune) []rune {
+		out := append([]rune{}, fixed...)
+		for i := 0; i < perClass && len(rs) > 0; i++ {
+			out = append(out, rs[rng.Intn(len(rs))])
+		}
+		return out
+	}
+	var out []string
+	for _, r := range append(pick(letters, []rune{'k', 0x17f, 0x3c3, 0x1c5}), pick(others, []rune{0x2167, 0x2177, 0x24b6, 0x24d0, 0x345})...) {
+		q := regexp.QuoteMeta(string(r))
+		for _, sh := range []string{"%s", ".*%s.*", "^%s", "%s$", "^%s$", "^1%s2$", "%s-%s"} {
+			body := strings.ReplaceAll(sh, "%s", q)
+			out = append(out, "(?i)"+body, body)
+		}
+		// the parser turns a two-element class of a fold pair into a case-folded literal as well
+		if r1 := unicode.SimpleFold(r); unicode.SimpleFold(r1) == r {
+			out = append(out, "["+q+regexp.QuoteMeta(string(r1))+"]", "^["+q+regexp.QuoteMeta(string(r1))+"]$")
+		}
 	}
 	return out
 }
@@ -450,8 +514,25 @@ func engineLevel(enc *json.Encoder, tmp string, rng *rand.Rand, npat int) {
 			cond = fmt.Sprintf("%sm.File().Name.Matches(%s)", bang, q)
 		case "pkgpath":
 			cond = fmt.Sprintf("%sm.File().PkgPath.Matches(%s)", bang, q)
+		case "whole":
+			cond = fmt.Sprintf("%sm[\"$$\"].Text.Matches(%s)", bang, q)
+		case "list":
+			cond = fmt.Sprintf("%sm[\"xs\"].Text.Matches(%s)", bang, q)
+		case "cgroup-g":
+			cond = fmt.Sprintf("%sm[\"g\"].Text.Matches(%s)", bang, q)
+		case "cgroup-opt":
+			cond = fmt.Sprintf("%sm[\"opt\"].Text.Matches(%s)", bang, q)
 		}
-		fmt.Fprintf(&rb, "func g%d(m dsl.Matcher) {\n\tm.Match(`p%d($x)`).Where(%s).Report(`hit`)\n}\n", gi, gi, cond)
+		switch pred {
+		case "list":
+			// the text of a $*xs capture: the source from the first to the last argument, empty when it matched nothing
+			fmt.Fprintf(&rb, "func g%d(m dsl.Matcher) {\n\tm.Match(`p%d($*xs)`).Where(%s).Report(`hit`)\n}\n", gi, gi, cond)
+		case "cgroup-g", "cgroup-opt":
+			// a comment group that captured the empty string (g) or did not participate at all (opt) has the empty text
+			fmt.Fprintf(&rb, "func g%d(m dsl.Matcher) {\n\tm.MatchComment(`cg%d:(?P<g>\\w*)(?P<opt>-opt)?`).Where(%s).Report(`hit`)\n}\n", gi, gi, cond)
+		default:
+			fmt.Fprintf(&rb, "func g%d(m dsl.Matcher) {\n\tm.Match(`p%d($x)`).Where(%s).Report(`hit`)\n}\n", gi, gi, cond)
+		}
 		groups = append(groups, grp{pred, neg, pat})
 	}
 	// patterns that tell a base name from a path, an anchored from a floating match, and a package path from a name
@@ -473,20 +554,73 @@ func engineLevel(enc *json.Encoder, tmp string, rng *rand.Rand, npat int) {
 			addGroup("pkgpath", neg, p)
 		}
 	}
+	// patterns that match the empty string (and some that do not) against texts that can be empty
+	emptyPats := []string{`^$`, `^\s*$`, `x*`, `(?s)^.*$`, `^`, `$`, `a?`, `.*`, `^.+$`, `foo`, `^"a"`, `-opt`, `^abc$`, `.`, `^\w*$`, `\S`, `(?i)^$`, `^\z`}
+	for _, p := range emptyPats {
+		pats = append(pats, p)
+		for _, neg := range []bool{false, true} {
+			addGroup("list", neg, p)
+			addGroup("cgroup-g", neg, p)
+			addGroup("cgroup-opt", neg, p)
+			addGroup("text", neg, p)
+		}
+	}
+	// the whole match ($$) as the text
+	for _, p := range []string{`^p\d+\("foo"\)$`, `foo`, `^"`, `\)$`, `^$`, `(?i)FOO`, `^p`} {
+		pats = append(pats, p)
+		for _, neg := range []bool{false, true} {
+			addGroup("whole", neg, p)
+		}
+	}
 	var tb strings.Builder
 	tb.WriteString("package target\n\n")
-	for gi := range groups {
-		fmt.Fprintf(&tb, "func p%d(string) {}\n", gi)
+	tb.WriteString("var x int\n\n")
+	for gi, g := range groups {
+		switch g.pred {
+		case "list":
+			fmt.Fprintf(&tb, "func p%d(args ...interface{}) {}\n", gi)
+		case "cgroup-g", "cgroup-opt":
+		default:
+			fmt.Fprintf(&tb, "func p%d(string) {}\n", gi)
+		}
 	}
 	tb.WriteString("\nfunc f() {\n")
 	type site struct {
 		group int
 		pos   int
-		arg   string
+		arg   string // the text the predicate must see
 	}
 	var sites []site
 	for gi, g := range groups {
+		switch g.pred {
+		case "list":
+			for _, a := range []string{``, `"a"`, `"a", "b"`, `x,  1`, `"foo"`, `" "`, "x,\n\t\tx"} {
+				tb.WriteString("\t")
+				sites = append(sites, site{group: gi, pos: tb.Len(), arg: a})
+				fmt.Fprintf(&tb, "p%d(%s)\n", gi, a)
+			}
+			continue
+		case "cgroup-g", "cgroup-opt":
+			for _, c := range [][3]string{{"", "", ""}, {"abc", "abc", ""}, {"abc-opt", "abc", "-opt"}, {"-opt", "", "-opt"}, {"foo x", "foo", ""}} {
+				tb.WriteString("\t// ")
+				want := c[1]
+				if g.pred == "cgroup-opt" {
+					want = c[2]
+				}
+				sites = append(sites, site{group: gi, pos: tb.Len(), arg: want})
+				fmt.Fprintf(&tb, "cg%d:%s\n", gi, c[0])
+			}
+			continue
+		}
 		args := []string{`""`}
+		if g.pred == "whole" {
+			for _, a := range []string{`"foo"`, `"FOO"`, `""`, "`a\nfoo`"} {
+				tb.WriteString("\t")
+				sites = append(sites, site{group: gi, pos: tb.Len(), arg: fmt.Sprintf("p%d(%s)", gi, a)})
+				fmt.Fprintf(&tb, "p%d(%s)\n", gi, a)
+			}
+			continue
+		}
 		if g.pred == "text" {
 			args = nil
 			for _, t := range texts {
@@ -532,7 +666,7 @@ func engineLevel(enc *json.Encoder, tmp string, rng *rand.Rand, npat int) {
 			// the node texts do not depend on the file name: only the File() predicates are re-observed
 			for _, s := range sites {
 				g := groups[s.group]
-				if g.pred == "text" {
+				if g.pred != "name" && g.pred != "pkgpath" {
 					continue
 				}
 				in := filepath.Base(fname)
@@ -627,6 +761,7 @@ func main() {
 	seed := flag.Int64("seed", 1, "PRNG seed")
 	nrand := flag.Int("rand", 300, "random patterns")
 	nengine := flag.Int("engine", 40, "patterns used at engine level")
+	nfold := flag.Int("fold", 12, "sampled runes per class (letters / non-letters) with case variants, put under (?i)")
 	tmp := flag.String("tmp", "", "scratch directory")
 	flag.Parse()
 	rng := rand.New(rand.NewSource(*seed))
@@ -636,6 +771,7 @@ func main() {
 	enc.Encode(unicodeCheck())
 	enc.Encode(decodeCheck(rng, 1500))
 	pats := systematicPatterns()
+	pats = append(pats, foldPatterns(rng, *nfold)...)
 	for i := 0; i < *nrand; i++ {
 		pats = append(pats, randomPattern(rng, 3))
 	}
